@@ -189,8 +189,49 @@ def _job(kind, timeout_ms, seed=0, **p):
                    seed=seed, logic='QF_NRA', require_checks=['verdict-iff-every-pvalue-exceeds-alpha'])
 
 
+def float_harness(ex):
+    """float level (outside the real-number model): integer-typed datasets whose differences are large (squares must not wrap), and
+    errors so small that their squares underflow (a bin with a non-zero error on either side is a USED bin).  Concrete inputs from
+    pools; reference values computed in exact rational arithmetic"""
+    from fractions import Fraction
+    import scipy.stats as sst
+    from valjean.eponine.dataset import Dataset
+    from valjean.gavroche.stat_tests.chi2 import TestChi2
+    dtype = [np.float64, np.int64, np.int32, np.int16, np.float32][ex.choice(5, 'dtype')]
+    scale = [1, 200, 50000][ex.choice(3, 'size-of-the-differences')]
+    tiny = [None, 1e-182, 1e-170, 5e-324][ex.choice(4, 'tiny-errors-in-the-first-bin')]
+    ie = bool(ex.flag('ignore-empty'))
+    if dtype == np.int16 and scale > 200:
+        return
+    v1 = np.array([3, 1, 2], dtype=dtype) * dtype(scale)
+    v2 = np.array([1, 1, 5], dtype=dtype) * dtype(scale)
+    e1 = np.array([1.0, 0.0, 0.5]) * scale
+    e2 = np.array([0.5, 0.0, 2.0]) * scale
+    if tiny is not None:
+        e1[0] = tiny
+        e2[0] = tiny if ex.flag('both-errors-tiny') else 0.0
+    with np.errstate(all='ignore'):
+        res = TestChi2(Dataset(v1.copy(), e1.copy(), name='a'), Dataset(v2.copy(), e2.copy(), name='b'), name='c', alpha=0.01,
+                       ignore_empty=ie).evaluate()
+    used = [bool(a > 0 or b > 0) for a, b in zip(e1, e2)] if ie else [True] * 3
+    ex.check(int(np.asarray(res.test.ndf).reshape(-1)[0]) == sum(used), 'float:ndf-is-the-number-of-used-bins',
+             detail=f'ndf={res.test.ndf} used={used}')
+    if tiny is None and ie:
+        # exact reference (no tiny errors: every quantity is comfortably inside the double range)
+        want = sum(Fraction(int(a) - int(b)) ** 2 / (Fraction(float(x)) ** 2 + Fraction(float(y)) ** 2)
+                   for a, b, x, y, u in zip(v1, v2, e1, e2, used) if u)
+        got = float(np.asarray(res.chi2).reshape(-1)[0])
+        ex.check(abs(got - float(want)) <= 1e-6 * float(want), 'float:statistic-is-the-sum-over-used-bins', detail=f'{got} instead of {float(want)}')
+        p = float(sst.chi2.sf(float(want), sum(used)))
+        ex.check(bool(res) == (p > 0.01), 'float:verdict-iff-every-probability-exceeds-the-level', detail=f'p={p} verdict={bool(res)}')
+
+
+def _job_float(timeout_ms, seed=0):
+    return run_sym('x', float_harness, timeout_ms=timeout_ms, seed=seed, require_checks=['float:ndf-is-the-number-of-used-bins'])
+
+
 def jobs(tier):
-    out = []
+    out = [('float-level', _job_float, dict(timeout_ms=30000))]
     t = 30000 if tier == 'quick' else 300000
     b = BOUNDS[tier]
     for s in b['shapes']:
@@ -212,6 +253,8 @@ def jobs(tier):
 
 
 def replay(rp):
+    if rp['job'] == 'float-level':
+        return replay_sym(float_harness, rp['inputs'])
     for j in jobs('thorough') + jobs('quick'):
         if j[0] == rp['job']:
             p = dict(j[2])
